@@ -578,6 +578,19 @@ def drive_queue_worker(job, case, mon):
     worker.start()
     depth = int(job.get("inflight", 16))
     done = 0
+    # a site component file reached through a symlinked directory (<root>/current -> releases/r1), named in the registry
+    # profile of some jobs: applying the same profile again and again must not leave anything behind per job
+    import shutil
+    import tempfile
+
+    site_root = tempfile.mkdtemp(prefix="c18-site-")
+    os.makedirs(os.path.join(site_root, "releases", "r1"))
+    with open(os.path.join(site_root, "releases", "r1", "c18_site_components.py"), "w", encoding="utf-8") as fh:
+        fh.write("from semantiva.data_processors import DataOperation\nfrom semantiva.examples.test_utils import FloatDataType\n\n\n"
+                 "class C18SiteScale(DataOperation):\n    \"\"\"Site component: data * 2.\"\"\"\n\n    @classmethod\n    def input_data_type(cls):\n        return FloatDataType\n\n"
+                 "    @classmethod\n    def output_data_type(cls):\n        return FloatDataType\n\n    def _process_logic(self, data):\n        return FloatDataType(data.data * 2)\n")
+    os.symlink(os.path.join("releases", "r1"), os.path.join(site_root, "current"))
+    site_file = os.path.join(site_root, "current", "c18_site_components.py")
     try:
         for target in job["points"] + ([job["n"]] if job["n"] not in job["points"] else []):
             pending = []
@@ -596,6 +609,12 @@ def drive_queue_worker(job, case, mon):
                         fut = orch.enqueue(copy.deepcopy(case["nodes"]), data=to_real_data(case["data"]),
                                            context=ContextType(copy.deepcopy(case["ctx"])), return_future=True,
                                            registry_profile=RegistryProfile(load_defaults=True, modules=[], paths=[], extensions=["not_installed_ext_c18"]))
+                    elif submitted % 5 == 4:
+                        from semantiva.registry.bootstrap import RegistryProfile
+
+                        fut = orch.enqueue(copy.deepcopy(case["nodes"]), data=to_real_data(case["data"]),
+                                           context=ContextType(copy.deepcopy(case["ctx"])), return_future=True,
+                                           registry_profile=RegistryProfile(load_defaults=True, modules=[], paths=[site_file], extensions=[]))
                     else:
                         fut = orch.enqueue(copy.deepcopy(case["nodes"]), data=to_real_data(case["data"]),
                                            context=ContextType(copy.deepcopy(case["ctx"])), return_future=True)
@@ -613,6 +632,7 @@ def drive_queue_worker(job, case, mon):
         orch.stop()
         master.join(timeout=5)
         worker.join(timeout=5)
+        shutil.rmtree(site_root, ignore_errors=True)
     return None
 
 
